@@ -78,6 +78,26 @@ def fixed_table():
     return out
 
 
+IB, IE = "<!-- BEGIN IMPLCOV -->", "<!-- END IMPLCOV -->"
+
+
+def implcov_table():
+    import json
+    f = VERIF / "docs" / "implcov" / "summary.json"
+    if not f.exists():
+        return "(not measured)"
+    S = json.loads(f.read_text())
+    rows = ["| property | file anchored by the property | instrumented lines | executed by the correspondence run | never executed |", "|---|---|---|---|---|"]
+    for pid in sorted(S):
+        for rel, x in sorted(S[pid]["files"].items()):
+            i, e = x["instrumented"], x["executed"]
+            rows.append(f"| {pid} ({S[pid]['tier']}) | {rel} | {i if i else 'not compiled into this harness'} | {e if i else ''} | {i - e if i else ''} |")
+    return ("`tools/implcov.py` (gcov over the harness objects of a run on a scratch worktree; a measurement of the tie, not a check).  "
+            "The never-executed lines are listed with their source text in `docs/implcov/<Cxx>.txt`; whole files count, so a file of which the "
+            "property anchors only a part (String.cpp for C18, Socket.cpp for C13/C14) shows lines of unrelated functions too.  Code that runs "
+            "in forked children leaving through `_exit` is counted only where the harness dumps the counters.\n\n" + "\n".join(rows))
+
+
 def put(s, b, e, body, before):
     blk = b + "\n\n" + body + "\n\n" + e
     if b in s and e in s:
@@ -92,6 +112,8 @@ def main():
     s = put(s, FB, FE, "### 4b. Defects repaired and findings kept (generated from known_findings.json)\n\n" + fixed_table(),
             "--------------------------------------------------------------------------------------\n## 5. Trusted base")
     s = put(s, HB, HE, "### 4d. Harmless changes and how the checks react (generated from harmless/*/result.json)\n\n" + harmless_table(),
+            "--------------------------------------------------------------------------------------\n## 5. Trusted base")
+    s = put(s, IB, IE, "### 4e. Lines of the anchored code executed by the correspondence runs (generated from docs/implcov/summary.json)\n\n" + implcov_table(),
             "--------------------------------------------------------------------------------------\n## 5. Trusted base")
     s = put(s, SB, SE, "### 4c. Seeded changes and which checks catch them (generated from seeded/*/result.json)\n\n" + seeded_table(),
             "--------------------------------------------------------------------------------------\n## 5. Trusted base")
